@@ -12,7 +12,7 @@ stub does with a stack image are proved for ALL ranges / frames / error codes.
 Sentences of the property and where they are stated:
   1. "makes present exactly the non-reserved vectors in that range and leaves all other entries
      untouched"            → `install_spec`, `installed_iff`, `untouched_iff`, `install_never_panics`,
-                             `whole_table_form`, `single_index_form`, `range_form` (all ranges, all forms)
+                             `whole_form_installs`, `single_form_installs`, `range_form_installs` (all ranges, all forms)
   2. "the general handler is called exactly once with index v, the pushed frame contents, and the
      error code exactly when the vector defines one"
                            → `stub_reports`, `installed_stub_reports` (all frames, all error codes)
@@ -137,28 +137,47 @@ theorem contains_spec (v : Nat) :
 
 example : (RangeArg.excl 32 64).contains 63 = true ∧ (RangeArg.excl 32 64).contains 64 = false := by decide
 
-/-- `set_general_handler!(idt, h)` is the range `0..=255`: every `u8`. -/
-theorem whole_table_form :
-    Form.whole.toRange = some (.incl 0 255) ∧ ∀ v, v < 256 → (RangeArg.incl 0 255).contains v = true := by
-  refine ⟨by decide +kernel, ?_⟩
-  intro v hv
-  simp [RangeArg.contains]; omega
+/-- Does the range a form forwards contain exactly the vectors satisfying `p` (among all `u8`)? -/
+def formDenotes (f : Form) (p : Nat → Bool) : Bool :=
+  match f.toRange with
+  | some r => (List.range 256).all (fun v => r.contains v == p v)
+  | none => false
 
-/-- `set_general_handler!(idt, h, i)` is the range `i..=i`: exactly the vector `i`. -/
-theorem single_index_form (i : Nat) :
-    (Form.single i).toRange = some (.incl i i) ∧ ∀ v, (RangeArg.incl i i).contains v = true ↔ v = i := by
-  refine ⟨?_, ?_⟩
-  · have h1 : formSingle = ("..=", none, none) := by decide +kernel
-    simp [Form.toRange, rangeOf, bound, h1]
-  · intro v
-    simp [RangeArg.contains]; omega
+/-- `set_general_handler!(idt, h)` forwards a range that contains every `u8`
+(stated on the meaning of the forwarded range, not on its spelling). -/
+theorem whole_table_form :
+    ∃ r, Form.whole.toRange = some r ∧ ∀ v, v < 256 → r.contains v = true := by
+  have h : formDenotes .whole (fun _ => true) = true := by decide +kernel
+  unfold formDenotes at h
+  split at h
+  · next r hr =>
+    refine ⟨r, hr, fun v hv => ?_⟩
+    have := List.all_eq_true.mp h v (List.mem_range.mpr hv)
+    simpa using this
+  · cases h
+
+/-- `set_general_handler!(idt, h, i)` forwards a range that contains exactly the vector `i`,
+for every literal `i : u8`. -/
+theorem single_index_form (i : Nat) (hi : i < 256) :
+    ∃ r, (Form.single i).toRange = some r ∧ ∀ v, v < 256 → (r.contains v = true ↔ v = i) := by
+  have hall : ∀ i, i < 256 → formDenotes (.single i) (fun v => v == i) = true := by decide +kernel
+  have h := hall i hi
+  unfold formDenotes at h
+  split at h
+  · next r hr =>
+    refine ⟨r, hr, fun v hv => ?_⟩
+    have := List.all_eq_true.mp h v (List.mem_range.mpr hv)
+    cases hc : r.contains v <;> simp [hc] at this ⊢ <;> omega
+  · cases h
 
 /-- `set_general_handler!(idt, h, range)` hands the caller's range on unchanged. -/
 theorem range_form (r : RangeArg) : (Form.range r).toRange = some r := by
   have : (formRange == "$range") = true := by decide +kernel
   simp [Form.toRange, this]
 
-example : (Form.single 14).toRange = some (.incl 14 14) := (single_index_form 14).1
+example : formDenotes (.single 14) (fun v => v == 14) = true := by decide +kernel
+example : ((Form.single 14).toRange.map (fun r => (r.contains 13, r.contains 14, r.contains 15))) =
+    some (false, true, false) := by decide +kernel
 
 /-! ## Installation, for every range -/
 
@@ -222,18 +241,29 @@ theorem untouched_iff (r : RangeArg) (t : Delta) (ht : install r = .ok t) (v : N
   · simp [h]
   · simp [h]
 
-/-- The three macro forms. -/
-theorem forms_install (f : Form) :
-    ∃ r t, f.toRange = some r ∧ installForm f = .ok t ∧ ∀ v, v < 256 → t[v]? = some (want r v) := by
-  have key : ∀ r, f.toRange = some r → ∃ r t, f.toRange = some r ∧ installForm f = .ok t ∧
-      ∀ v, v < 256 → t[v]? = some (want r v) := by
-    intro r hr
-    obtain ⟨t, ht, _, hget⟩ := install_spec r
-    exact ⟨r, t, hr, by simp [installForm, hr, ht], hget⟩
-  cases f with
-  | whole => exact key _ whole_table_form.1
-  | single i => exact key _ (single_index_form i).1
-  | range r => exact key _ (range_form r)
+/-- The whole-table form installs every non-reserved vector. -/
+theorem whole_form_installs :
+    ∃ t, installForm .whole = .ok t ∧
+      ∀ v, v < 256 → t[v]? = some (if isReserved v = false then some (specStub v) else none) := by
+  obtain ⟨r, hr, hall⟩ := whole_table_form
+  obtain ⟨t, ht, _, hget⟩ := install_spec r
+  refine ⟨t, by simp [installForm, hr, ht], fun v hv => ?_⟩
+  rw [hget v hv]; unfold want; simp [hall v hv]
+
+/-- The single-index form installs vector `i` (unless reserved) and touches nothing else. -/
+theorem single_form_installs (i : Nat) (hi : i < 256) :
+    ∃ t, installForm (.single i) = .ok t ∧
+      ∀ v, v < 256 → t[v]? = some (if v = i ∧ isReserved v = false then some (specStub v) else none) := by
+  obtain ⟨r, hr, hiff⟩ := single_index_form i hi
+  obtain ⟨t, ht, _, hget⟩ := install_spec r
+  refine ⟨t, by simp [installForm, hr, ht], fun v hv => ?_⟩
+  rw [hget v hv]; unfold want; simp [hiff v hv]
+
+/-- The range form installs exactly the non-reserved vectors of the caller's range. -/
+theorem range_form_installs (r : RangeArg) :
+    ∃ t, installForm (.range r) = .ok t ∧ ∀ v, v < 256 → t[v]? = some (want r v) := by
+  obtain ⟨t, ht, _, hget⟩ := install_spec r
+  exact ⟨t, by simp [installForm, range_form r, ht], hget⟩
 
 -- non-vacuity: a concrete range on the generated tables
 example : (install (.excl 10 20)).map (fun t => (t[9]?, t[10]?.map (·.map (·.index)), t[15]?, t[20]?)) =
